@@ -746,3 +746,6 @@ type hashApp struct {
 	out  *Term // BV(8*size)
 	size int
 }
+
+// symFloat is a float converted from a symbolic integer; it can be passed around but not computed with.
+type symFloat struct{ t *Term }
